@@ -61,6 +61,10 @@ def judge(run, backend, scripts, pre, decisions, events, results, other_locked, 
             for op, r in results[i]:
                 if (op == 'get' and r is not False) or (op in ('is_locked', 'is_failed') and r is not True):
                     run.fail('failed-not-sticky', '%s lock marked failed by its holder: another client got %s() = %r; schedule %s' % (backend, op, r, [d[0] for d in decisions]), rp)
+    # (2') a lock that its holder has released (after holding it, or after marking it failed) is free: the next get() of anybody succeeds
+    if pre and pre[0] == 'get' and pre[-1] == 'release' and scripts == [['get']]:
+        if results[0] and results[0][0][1] is not True:
+            run.fail('not-reacquirable', '%s lock: after %s by its holder the lock cannot be acquired (get() = %r)' % (backend, ' -> '.join(pre), results[0][0][1]), rp)
     # (3) raised exceptions are never expected with the owner discipline
     for i in range(len(scripts)):
         for op, r in results[i]:
@@ -112,6 +116,7 @@ def check(run):
             ('fail-while-probing', [['get', 'fail?'], ['is_failed', 'get']], None),
             ('held-probe', [[], ['get', 'is_locked', 'is_failed']], ['get']),
             ('reacquire', [['get']], ['get', 'release']),
+            ('reacquire-after-fail', [['get']], ['get', 'fail', 'release']),
             # fail() by a client whose lock is gone (removed by `cleanup --locks-only` while its task ran: jug/jug.py then calls fail() on a free
             # name): the lock stays free - of the clients racing for it exactly one wins
             ('fail-on-free', [['fail', 'is_failed'], ['get'], ['get']], None),
